@@ -72,7 +72,7 @@ def main():
     spec = [
      {"id": "C01.core", "property": "C01", "pkg": "pkg/cl", "entry": "VerifC01Core",
       "cases": {"quick": quick, "thorough": thorough}, "reach": ["compared", "agreed"],
-      "max_depth": 400, "max_steps": 20000000, "solver_timeout_ms": 10000, "carves": [], "overrides": OVR,
+      "max_depth": 400, "max_steps": 20000000, "solver_timeout_ms": 10000, "int_mode": True, "carves": [], "overrides": OVR,
       "note": COMMON + " Bounds: quick = every kind with leaf operands x 3 variants (%d) + 1/10 of all well-typed depth-2 skeletons, "
               "every (kind, slot) with several child kinds (%d); thorough = all %d depth-2 skeletons (half of them in a second variant) + a 1/300 sample of "
               "the %d depth-3 skeletons. Outside: depth >= 4, floats/bignums, user macros, &optional/&key (C04), non-local exits (C07)."
@@ -80,12 +80,12 @@ def main():
       "assumptions": ["dotimes counts <= 3, do/do* iterations <= 3, <= 12 calls per program"]},
      {"id": "C01.findings", "property": "C01", "pkg": "pkg/cl", "entry": "VerifC01Core",
       "cases": {"quick": findings, "thorough": findings}, "reach": ["compared"],
-      "max_depth": 400, "max_steps": 20000000, "solver_timeout_ms": 10000, "carves": CARVES, "overrides": OVR,
+      "max_depth": 400, "max_steps": 20000000, "solver_timeout_ms": 10000, "int_mode": True, "carves": CARVES, "overrides": OVR,
       "note": "Same entry as C01.core on one skeleton per known finding: the main run checks the part of each skeleton outside the "
               "carved regions, the probe runs confirm that each finding still reproduces inside its region."},
      {"id": "C01.quote", "property": "C01", "pkg": "pkg/cl", "entry": "VerifC01Quote",
       "cases": {"quick": [[k,m] for k in range(19) for m in range(7)], "thorough": [[k,m] for k in range(19) for m in range(7)]},
-      "reach": ["compared"], "max_depth": 400, "max_steps": 20000000, "solver_timeout_ms": 10000,
+      "reach": ["compared"], "max_depth": 400, "max_steps": 20000000, "solver_timeout_ms": 10000, "int_mode": True,
       "note": "(quote d) for 19 kinds of datum d (fixnum, symbol, keyword, string with 3 symbolic bytes, character with symbolic rune, "
               "nil, t, list of symbolic fixnums, code-looking lists incl. trace forms/undefined functions/lambda/quote, dotted pair, "
               "vector, double-float, ratio, bignum, octet, nested lists with nil/t/()) in 7 contexts (direct, function argument, let "
